@@ -105,9 +105,74 @@ HandleProfileCalls(s) ==
           [C0 EXCEPT !.op = "remove", !.p = FB], [C0 EXCEPT !.op = "writefile", !.p = FA, !.data = <<1, 1, 1>>, !.perm = 420],
           [C0 EXCEPT !.op = "readfile", !.p = FA], [C0 EXCEPT !.op = "readfile", !.p = FB]}
 
+FirstName == CHOOSE a \in Names : TRUE
+FirstNameOf == CHOOSE a \in Names : \A b \in Names : RankOf(a) <= RankOf(b)
+
+(***************************************************************************)
+(* Profile "symq" (C04): configured initial states - every link graph over *)
+(* the names in /w (each name absent, a file, a directory, or a symbolic   *)
+(* link with one of the target shapes) next to a fixed directory /w/s -    *)
+(* crossed with every query path through those names and the operations   *)
+(* that follow or do not follow links.                                     *)
+(***************************************************************************)
+SubS == AbsP(<<"w", "s">>)
+LinkShapes(x) ==
+    {RelP(<<y>>) : y \in Names} \cup {RelP(<<"..", "w", y>>) : y \in Names} \cup {AbsP(<<"w", y>>) : y \in Names}
+    \cup {RelP(<<"s", "f">>), RelP(<<"s", "u">>), RelP(<<"s">>)}
+Kinds(x) == {[k |-> "none", t |-> NoPath], [k |-> "file", t |-> NoPath], [k |-> "dir", t |-> NoPath]}
+            \cup {[k |-> "link", t |-> t] : t \in LinkShapes(x)}
+
+Mk(op, p) == [C0 EXCEPT !.op = op, !.p = p, !.perm = IF op = "mkdir" THEN 493 ELSE 420, !.data = IF op = "writefile" THEN <<1>> ELSE <<>>]
+FixedCalls == <<Mk("mkdir", SubS), Mk("writefile", AbsP(<<"w", "s", "f">>)),
+                [Mk("symlink", AbsP(<<"w", "s", "u">>)) EXCEPT !.q = RelP(<<"..", FirstNameOf>>)]>>
+CallsForName(x, kd) ==
+    CASE kd.k = "none" -> <<>>
+      [] kd.k = "file" -> <<Mk("writefile", AbsP(<<"w", x>>))>>
+      [] kd.k = "dir"  -> <<Mk("mkdir", AbsP(<<"w", x>>)), Mk("writefile", AbsP(<<"w", x, "f">>))>>
+      [] kd.k = "link" -> << [Mk("symlink", AbsP(<<"w", x>>)) EXCEPT !.q = kd.t] >>
+
+RECURSIVE GraphCalls(_, _)
+GraphCalls(g, todo) ==
+    IF todo = {} THEN <<>>
+    ELSE LET x == CHOOSE n \in todo : \A m \in todo : RankOf(n) <= RankOf(m) IN
+         CallsForName(x, g[x]) \o GraphCalls(g, todo \ {x})
+
+RECURSIVE RunCalls(_, _)
+RunCalls(s, cs) == IF cs = <<>> THEN s ELSE RunCalls(Apply(s, Head(cs)).st, Tail(cs))
+
+Graphs == [Names -> UNION {Kinds(x) : x \in Names}]
+GraphHist(g) == FixedCalls \o GraphCalls(g, Names)
+
+QNames == Names \cup {"s", "f", "u"}
+QPaths == {AbsP(<<"w", x>>) : x \in Names}
+          \cup {AbsP(<<"w", x, y>>) : x \in Names, y \in QNames}
+          \cup {AbsP(<<"w", x, y, "f">>) : x \in Names, y \in Names \cup {"s"}}
+FreshQ == AbsP(<<"w", "zz">>)
+SymQCalls ==
+    {[C0 EXCEPT !.op = o, !.p = p] : o \in {"stat", "lstat", "readlink", "evalsymlinks", "readfile", "readdir", "remove", "chdir"}, p \in QPaths}
+    \cup {[C0 EXCEPT !.op = "openclose", !.p = p, !.flag = f, !.perm = 420] : p \in QPaths, f \in {<<"RDONLY">>, <<"WRONLY", "CREATE">>}}
+    \cup {[C0 EXCEPT !.op = "chmod", !.p = p, !.perm = 448] : p \in QPaths}
+    \cup {[C0 EXCEPT !.op = "truncate", !.p = p, !.n = 0] : p \in QPaths}
+    \cup {[C0 EXCEPT !.op = "lchown", !.p = p, !.uid = 1001, !.gid = 1001] : p \in QPaths}
+    \cup {[C0 EXCEPT !.op = "mkdir", !.p = [p EXCEPT !.parts = Append(@, "zz")], !.perm = 493] : p \in QPaths}
+    \cup {[C0 EXCEPT !.op = o, !.p = p, !.q = FreshQ] : o \in {"rename", "link"}, p \in QPaths}
+
+(***************************************************************************)
+(* Profile "symchain": chains l1 -> l2 -> ... -> ln -> file, around the    *)
+(* budgets of the kernel (40) and of EvalSymlinks (255).                   *)
+(***************************************************************************)
+LName(i) == "l" \o ToString(i)
+ChainLens == {1, 2, 39, 40, 41, 64, 65, 255, 256}
+ChainHist(n) ==
+    <<Mk("writefile", AbsP(<<"w", "t">>))>>
+    \o [i \in 1..n |-> [Mk("symlink", AbsP(<<"w", LName(i)>>)) EXCEPT !.q = RelP(<<IF i = n THEN "t" ELSE LName(i + 1)>>)]]
+ChainCalls ==
+    {[C0 EXCEPT !.op = o, !.p = AbsP(<<"w", "l1">>)] : o \in {"stat", "lstat", "evalsymlinks", "readfile", "chdir", "readlink"}}
+    \cup {[C0 EXCEPT !.op = "openclose", !.p = AbsP(<<"w", "l1">>), !.flag = <<"RDONLY">>]}
+    \cup {[C0 EXCEPT !.op = "truncate", !.p = AbsP(<<"w", "l1">>), !.n = 0]}
+
 \* a call on a two-component path whose first component does not exist tells nothing that the
 \* same call with the other second component does not: keep one representative
-FirstName == CHOOSE a \in Names : TRUE
 Pruned(s, c) ==
     LET dead(p) == /\ p.abs /\ Len(p.parts) = 3
                    /\ Res(s, AbsP(SubSeq(p.parts, 1, 2)), FALSE).id = 0
@@ -123,8 +188,10 @@ Calls(s) ==
                  [] Profile = "nsorefa" -> NsCalls
                  [] Profile = "nssym" -> NsCalls \cup SymCalls \cup OwnCalls
                  [] Profile = "handles" -> HandleProfileCalls(s)
+                 [] Profile = "symq" -> SymQCalls
+                 [] Profile = "symchain" -> ChainCalls
                  [] OTHER -> NsCalls IN
-    {c \in all : ~Pruned(s, c)}
+    IF Profile \in {"symq", "symchain"} THEN all ELSE {c \in all : ~Pruned(s, c)}
 
 EdgeFile == IF "VERIF_EDGES" \in DOMAIN IOEnv THEN IOEnv.VERIF_EDGES ELSE ""
 
@@ -137,12 +204,16 @@ InitFor ==
     ELSE InitSt
 
 Init ==
-    /\ st = InitFor
-    /\ hist = <<>>
     /\ last = [call |-> C0, res |-> R0]
+    /\ CASE Profile = "symq" -> \E g \in Graphs : hist = GraphHist(g) /\ st = RunCalls(InitSt, GraphHist(g))
+         [] Profile = "symchain" -> \E n \in ChainLens : hist = ChainHist(n) /\ st = RunCalls(InitSt, ChainHist(n))
+         [] OTHER -> st = InitFor /\ hist = <<>>
+
+\* configured profiles issue exactly one call from each initial state
+Budget == IF Profile \in {"symq", "symchain"} THEN 1 ELSE MaxLen
 
 Next ==
-    /\ Len(hist) < MaxLen
+    /\ (IF Profile \in {"symq", "symchain"} THEN last.call.op = "" ELSE Len(hist) < MaxLen)
     /\ \E c \in Calls(st) :
         LET o == Apply(st, c) IN
         /\ \A i \in DOMAIN o.st.ino : Len(o.st.ino[i].data) <= MaxSize + 3
